@@ -168,6 +168,7 @@ def run(ctx):
         samples = [s for s in samples if os.path.exists(s)]
         if ctx.tier == "quick":
             samples = samples[:6]
+        samples = samples + [cp for cp, _ in dwcorr.compiler_objects(fs.dir, 4 if ctx.tier == "quick" else None)]   # compiled on the spot
         s_ok = 0
         for s in samples:
             laws = [("name = @AT_name", "entry ?([name] != [@AT_name])"),
